@@ -49,8 +49,24 @@ def observed_schedule(ctx, sched, orig, sim_time, workload, worker_pools):
     before = snapshot(ctx)
     ctx.last_offer = None
     rec = {"t": now, "policy": name}
+    chaos = ctx.world.get("faults", {}).get("solver_chaos") or {}
+    ctx.solver_chaos_active = False
+    if chaos.get("on") and name in PLANNERS:
+        from . import policies
+
+        inv_no = len(ctx.invocations)
+        rng = random.Random(f"{ctx.world['seed']}:solver:{inv_no}")
+        if rng.random() < chaos.get("p", 0.7):
+            ctx.solver_chaos_active = True
+            policies.arm_solver_chaos(ctx, rng)
     try:
-        placements = orig(sim_time, workload, worker_pools)
+        try:
+            placements = orig(sim_time, workload, worker_pools)
+        finally:
+            if ctx.solver_chaos_active:
+                from . import policies
+
+                policies.disarm_solver_chaos()
     except Exception as e:  # noqa
         msg = f"{type(e).__name__}: {e}"
         if any(m in msg for m in ENV_LIMIT_MARKERS):
@@ -201,12 +217,11 @@ def check_joint_feasibility(ctx, now, placed, decided):
         lst = fixed.setdefault(id(led.worker), [])
         for kind, obj, dem in led.demand_units():
             if kind == "task":
-                rem = _us(obj.remaining_time)
-                lst.append((now, now + rem, dem, obj.unique_name))
+                lst.append((now, _planned_end(ctx, obj, now), dem, obj.unique_name))
             elif kind == "batch":
                 members = [t for t, st in led.residents.values() if st is obj]
-                rem = max([_us(t.remaining_time) for t in members] or [0])
-                lst.append((now, now + rem, dem, "batch"))
+                end = max([_planned_end(ctx, t, now) for t in members] or [now])
+                lst.append((now, end, dem, "batch"))
             else:
                 lst.append((now, 1 << 60, dem, "profile"))
     floating = []  # tasks without a worker: (start, end, demand, pool, label)
@@ -267,6 +282,18 @@ def check_joint_feasibility(ctx, now, placed, decided):
             ctx.probe("c10_feasibility_search_cut")
 
 
+def _planned_end(ctx, task, now):
+    """until when a RUNNING task is known to occupy its worker: exactly now+remaining with exact
+    runtimes; under runtime variance the overrun is hidden from every policy, so only the planned end
+    (start + strategy runtime, but at least the present instant) counts as a planned instant"""
+    if not ctx.variance:
+        return now + _us(task.remaining_time)
+    s = ctx.shadow(task)
+    if s.start_time is None or s.runtime is None:
+        return now + 1
+    return max(s.start_time + s.runtime, now + 1)
+
+
 def _add_item(item, pool, worker_id, st, pinned, floating, batches_seen):
     from workload import BatchStrategy
 
@@ -293,7 +320,7 @@ def _overload(items, total_by_type):
         use = {}
         who = []
         for (a, b, dem, lbl) in items:
-            if a <= pt < b or (a == b == pt):
+            if a <= pt < b:
                 who.append(lbl)
                 for name, rid, q in dem:
                     use[name] = use.get(name, 0) + q
@@ -342,7 +369,7 @@ def check_c12(ctx, sched, now, task_pl, offered):
         fastest = min(_us(st.runtime) for st in t.available_execution_strategies)
         dl = _us(t.deadline)
         hopeless = dl < now + fastest
-        if hopeless:
+        if hopeless and _c12_applies(ctx, sched):
             ctx.probe("c12_hopeless_task")
             if p.placement_type.name == "PLACE_TASK" and p.is_placed():
                 ctx.violate("C12", "hopeless_task_placed",
